@@ -11,7 +11,10 @@ The four classes are the same code up to names, the `decode` they call and `send
                           soup_session.set_handlers(_on_soup_message, _on_soup_close); soup_session.start_dispatching()
     receive_message()     await _message_queue.get()                                       helper task `V2`
     close()               if _close_event or closed: return
-                          _close_event = Event(); soup_session.initiate_close(); await _close_event.wait()
+                          _close_event = Event()
+                          if _message_queue.is_dispatcher_current_task(): await soup_session.close(); return     (the repair of
+                              C05-app-close-from-message-callback: called from the message callback, i.e. by `D2` itself)
+                          soup_session.initiate_close(); await _close_event.wait()
     _on_soup_message(m)   if isinstance(m, SequencedData): await _message_queue.put(decode(m.data)[1])
     _on_soup_close()      await _message_queue.stop(); closed = True; await on_close_coro(); if _close_event: _close_event.set()
     send_message(msg)     soup_session.send_unseq_data(bytes)        (= the inner event `callSend`)
@@ -33,6 +36,19 @@ The four classes are the same code up to names, the `decode` they call and `send
 * `ACfg.closedFirst`: the order inside `_on_soup_close`.  `true` = the code as it is (/repo 7eb8348: `closed = True`, then
   `await queue.stop()`); `false` = the order up to 35c133f (`stop()` first), kept as the subject of
   `Witness.C05App.C05App_witness_cleanup_close_deadlock`.
+* **`close()` from the message callback** (body or cancellation clean-up) is carried out by the calling task, the second dispatcher
+  `D2`: past the guard it creates the event and awaits `soup_session.close()`.  If the soup session is already closed or closing
+  (`_closed`), that returns at once and so does `close()` — exactly what `AsyncSession.close()` does for a close requested from the
+  soup session's own message callback while another task is in the close body.  Otherwise `D2` *is* the closer of the soup session:
+  in the inner machine it is the user task `U d2u` (`d2u = 0`, an identifier the product machine reserves: inner events of the
+  user that name it are refused), entered with the inner event `callClose d2u`; `D2` has the status `inSoup` and its steps
+  (`run D2`) are the inner steps `run (U d2u)`.  Inside `_on_soup_close`, `queue.stop()` skips the current task
+  (`stop_task`: `task is asyncio.current_task()`), i.e. `D2` when `D2` is the closer; when `_on_soup_close` and with it
+  `soup_session.close()` have returned, `close()` returns to the callback, the callback returns and the dispatcher loop ends
+  (`while not self._closed`) in the same step (`d2Return`).  Nobody can cancel `D2` meanwhile: the only `cancel()` of the
+  dispatcher is the one in `queue.stop()`.
+  Before the repair the callback waited for the event and was cancelled by `queue.stop()`: `Witness/C05AppOld.lean` keeps that
+  transition and the recorded history.
 * The application session is constructed in the step in which `login()` returned an active session (what `<kind>.connect_async`
   does); before that the soup session has no callbacks.  The inner step out of the callback stage happens in the very step in
   which `_on_soup_close` returns (`finishClose`), so every product event is zero, one or two inner events.
@@ -69,6 +85,7 @@ inductive AStatus where
   | waitQ          -- suspended in `queue.get()` on the empty second queue
   | waitV          -- a `receive_message()` caller awaiting the helper task `V2`
   | waitE          -- suspended in `_close_event.wait()`
+  | inSoup         -- `D2` only: inside `await soup_session.close()` called from the message callback; it runs as the inner task `U d2u`
   | done
   deriving DecidableEq, Repr, Inhabited
 
@@ -76,9 +93,9 @@ inductive AProg where
   | idle
   | dispLoop
   | handler (v k : Nat)      -- inside the user's message callback for `v`, `k` more awaits to go
-  | handlerClose (v : Nat)   -- inside the user's message callback for `v`, inside `await app.close()`
+  | handlerClose (v : Nat)   -- inside the user's message callback for `v`, inside `await app.close()` (status `inSoup`)
   | handlerCC (v k : Nat)    -- inside an `awaitCC` message callback for `v`, `k` more awaits to go
-  | cleanupClose (v : Nat)   -- the cancelled `awaitCC` callback for `v` is inside the `await app.close()` of its clean-up
+  | cleanupClose (v : Nat)   -- the cancelled `awaitCC` callback for `v` is inside the `await app.close()` of its clean-up (status `inSoup`)
   | vget
   | recvWait (u : Nat)
   | closeWait (u : Nat)
@@ -277,9 +294,26 @@ def innerStep (a : ACfg) (s : St) (e : Sess.Ev) : St :=
   let d := i'.trace.drop s.inner.trace.length
   feed a { s with inner := i', tr := s.tr ++ d.map .inner } (entered d)
 
-/-- `_on_soup_close` returns to `AsyncSession.close()`: the inner step of the closer happens now -/
+/-- the inner user task that stands for `D2` while it carries out `soup_session.close()` (reserved: see `reservedEv`) -/
+def d2u : Nat := 0
+
+/-- `soup_session.close()` has returned to the `close()` the message callback awaits (`D2` is `inSoup`): `close()` returns; from the
+    body of the callback: the callback returns and the dispatcher loop tests `while not self._closed`; from the cancellation
+    clean-up: the cancellation goes on, the dispatcher loop breaks -/
+def d2Return (s : St) : St :=
+  if s.astatus .D2 = .inSoup then
+    match s.aprog .D2 with
+    | .handlerClose v =>
+        if s.q2Closed then ((s.emit2 (.closeRet (.handler v) .ok)).emit2 (.msgExit v)).finish2 .D2
+        else { ((((s.emit2 (.closeRet (.handler v) .ok)).emit2 (.msgExit v)).setA .D2 .ready).setP .D2 .dispLoop) with imm2 := true }
+    | .cleanupClose v => ((s.emit2 (.closeRet (.handler v) .ok)).emit2 (.msgAbandon v)).finish2 .D2
+    | _ => s
+  else s
+
+/-- `_on_soup_close` returns to `AsyncSession.close()`: the inner step of the closer happens now; if the closer is `D2` (the close
+    was requested from the message callback) the callback goes on in the same step -/
 def finishClose (a : ACfg) (s : St) (t : Sess.Tid) : St :=
-  innerStep a { s with cpc := .finished } (.run t)
+  d2Return (innerStep a { s with cpc := .finished } (.run t))
 
 /-- the end of the user's close callback: `cbExit`, `_close_event.set()`, return -/
 def endCb (a : ACfg) (s : St) (t : Sess.Tid) : St :=
@@ -300,9 +334,10 @@ def afterStop (a : ACfg) (s : St) (t : Sess.Tid) : St :=
 def stopV2 (a : ACfg) (s : St) (t : Sess.Tid) : St :=
   if alive2 (s.astatus .V2) then { (s.cancel2 .V2) with cpc := .waitV2 } else afterStop a s t
 
-/-- `stop_task(_dispatcher_task)`; `_dispatcher_task = None` once it has ended -/
+/-- `stop_task(_dispatcher_task)`; `_dispatcher_task = None` once it has ended.  `stop_task` skips the current task: `D2` is the
+    running task exactly when it is the closer, i.e. `inSoup` -/
 def stopD2 (a : ACfg) (s : St) (t : Sess.Tid) : St :=
-  if s.disp2Set && alive2 (s.astatus .D2) then { (s.cancel2 .D2) with cpc := .waitD2 }
+  if s.disp2Set && alive2 (s.astatus .D2) && s.astatus .D2 != .inSoup then { (s.cancel2 .D2) with cpc := .waitD2 }
   else stopV2 a { s with disp2Set := false } t
 
 /-- `_on_soup_close` from its beginning, run by the inner closer `t` in the step in which the transport was closed.
@@ -359,12 +394,28 @@ def stepInner (a : ACfg) (s : St) (e : Sess.Ev) : St :=
       else passInner a s e
   | _ => passInner a s e
 
+/-- inner events of the user that name the reserved task `U d2u` are refused -/
+def reservedEv : Sess.Ev → Bool
+  | .run (.U u) => u == d2u
+  | .callClose u => u == d2u
+  | .callRecv u => u == d2u
+  | .callLogin u => u == d2u
+  | .cancel u => u == d2u
+  | _ => false
+
 /-! ### application-level steps -/
 
 /-- `await app.close()` after its guard, by the application task `t` (program `p` while it waits) -/
 def startClose (a : ACfg) (s : St) (t : ATid) (p : AProg) : St :=
   let s := innerStep a { s with evt := some false } .callInitiateClose
   (s.setA t .waitE).setP t p
+
+/-- `await app.close()` after its guard, called from the message callback (by `D2`, the dispatcher task of the second queue; `p` says
+    from where: `handlerClose v` the body, `cleanupClose v` the cancellation clean-up): the event is created and
+    `await self.soup_session.close()` is carried out by `D2` itself — at once if the soup session is already closed or closing -/
+def closeOnD2 (a : ACfg) (s : St) (p : AProg) : St :=
+  let s := (({ s with evt := some false } : St).setA .D2 .inSoup).setP .D2 p
+  if s.inner.closed then d2Return s else passInner a s (.callClose d2u)
 
 /-- the second dispatcher has taken `v` and entered the user's message callback -/
 def dispHandle2 (a : ACfg) (s : St) (v : Nat) : St :=
@@ -374,7 +425,7 @@ def dispHandle2 (a : ACfg) (s : St) (v : Nat) : St :=
   | .raise => { (s.emit2 (.msgRaise v)) with imm2 := true }
   | .close =>
       if s.evt.isSome || s.appClosed then { ((s.emit2 (.closeRet (.handler v) .ok)).emit2 (.msgExit v)) with imm2 := true }
-      else startClose a s .D2 (.handlerClose v)
+      else closeOnD2 a s (.handlerClose v)
   | .awaitCC k => s.setP .D2 (.handlerCC v k)
   | .awaitClose k => s.setP .D2 (.handler v k)
 
@@ -385,7 +436,7 @@ def handlerDone (a : ACfg) (s : St) (t : ATid) (v : Nat) : St :=
   | .awaitClose _ =>
       if s.evt.isSome || s.appClosed then
         { (((s.emit2 (.closeRet (.handler v) .ok)).emit2 (.msgExit v)).setP t .dispLoop) with imm2 := true }
-      else startClose a s t (.handlerClose v)
+      else closeOnD2 a s (.handlerClose v)
   | _ => { ((s.emit2 (.msgExit v)).setP t .dispLoop) with imm2 := true }
 
 def stepDisp2 (a : ACfg) (s : St) : St :=
@@ -401,13 +452,10 @@ def stepRun2 (a : ACfg) (s : St) (t : ATid) : St :=
   | .cancelled =>
     match s.aprog t with
     | .handler v _ => (s.emit2 (.msgAbandon v)).finish2 t          -- raised into the user's handler; the dispatcher breaks
-    | .handlerClose v =>                                           -- … at `await app.close()` (the known finding)
-        ((s.emit2 (.closeRet (.handler v) .cancelled)).emit2 (.msgAbandon v)).finish2 t
     | .handlerCC v _ =>
         -- the clean-up of the cancelled callback: `await app.close()`, then the cancellation goes on
         if s.evt.isSome || s.appClosed then ((s.emit2 (.closeRet (.handler v) .ok)).emit2 (.msgAbandon v)).finish2 t
-        else startClose a s t (.cleanupClose v)
-    | .cleanupClose v => ((s.emit2 (.closeRet (.handler v) .cancelled)).emit2 (.msgAbandon v)).finish2 t
+        else closeOnD2 a s (.cleanupClose v)
     | .recvWait u =>
         -- late cancel (`vres2 = some v`): the value goes to the stash `_unclaimed` of the second queue, modelled as `q2` with the
         -- value re-inserted at its head (same argument as in `Sess.stepRun`: `V2` has ended, `D2` is not suspended on `q2` while
@@ -423,13 +471,10 @@ def stepRun2 (a : ACfg) (s : St) (t : ATid) : St :=
         match k with
         | 0 => handlerDone a s t v
         | k + 1 => s.setP t (.handler v k)
-    | .handlerClose v =>                                                                  -- the event was set
-        { (((s.emit2 (.closeRet (.handler v) .ok)).emit2 (.msgExit v)).setP t .dispLoop) with imm2 := true }
     | .handlerCC v k =>
         match k with
         | 0 => { ((s.emit2 (.msgExit v)).setP t .dispLoop) with imm2 := true }
         | k + 1 => s.setP t (.handlerCC v k)
-    | .cleanupClose v => ((s.emit2 (.closeRet (.handler v) .ok)).emit2 (.msgAbandon v)).finish2 t   -- the event was set
     | .vget =>
         match s.q2 with
         | [] => s.setA t .waitQ
@@ -441,7 +486,7 @@ def stepRun2 (a : ACfg) (s : St) (t : ATid) : St :=
             if s.q2Closed then ({ s with rcv2Busy := false }.emit2 (.ret u .eoq)).finish2 t
             else ({ s with rcv2Busy := false }.emit2 (.ret u .cancelled)).finish2 t
     | .closeWait u => (s.emit2 (.closeRet (.user u) .ok)).finish2 t
-    | .idle => s
+    | _ => s       -- `idle`; `handlerClose` / `cleanupClose` go with the status `inSoup`, which is not runnable here
   | _ => s
 
 /-- `await app.receive_message()` by user task `W u` -/
@@ -457,8 +502,11 @@ def startRecv2 (s : St) (u : Nat) : St :=
           (s.setA (.W u) .waitV).setP (.W u) (.recvWait u)
 
 def step (a : ACfg) (s : St) : Ev → St
-  | .inner e => stepInner a s e
-  | .run t => if runnable2 s t then stepRun2 a s t else s
+  | .inner e => if reservedEv e then s else stepInner a s e
+  | .run t =>
+      if runnable2 s t then stepRun2 a s t
+      else if t = .D2 ∧ s.astatus .D2 = .inSoup then stepInner a { s with imm2 := false } (.run (.U d2u))   -- `D2` inside `soup_session.close()`
+      else s
   | .appClose u =>
       if s.astatus (.W u) != .absent || !s.built then s
       else if s.evt.isSome || s.appClosed then (s.emit2 (.closeRet (.user u) .ok)).setA (.W u) .done
